@@ -9,18 +9,24 @@ META = {
     "disabled": False,
     "level": "model_checking",
     "level_text": "Two-level TLA+ specification. MpqMap (abstract: disk, session view, open, dirty, capacity; one action per MutableArchive call, "
-                  "failures as *Fail actions that change nothing) is the verdict spec. MpqHashTable (hash slots Empty/Deleted/Occupied with chosen home "
-                  "slots, block table, append cursor, listfile maintenance, probe loops as micro-steps, flush = WriteTables+UpdateHeader) is checked by TLC "
-                  "to refine MpqMap call by call on a 4-slot table with colliding names for all histories up to the bound, with probe termination "
-                  "(incl. full table), table/data disjointness and listfile exactness as invariants; its implementation machine (the code's deviations as "
-                  "named alternative actions) is shown by TLC to violate them, generates the operation histories (bounded-exhaustive short ones, random "
-                  "long ones incl. more additions than free slots) and predicts the real outcome. The histories are replayed on real MutableArchive objects "
-                  "over V1-V4 starting archives; after every close a fresh Archive::open reads EVERY name of the universe; TLC validates the recorded "
-                  "trace against MpqMap (failed call => unchanged, reads equal the model's disk, untouched names keep their tokens, every call returns).",
+                  "refusals as Fail actions that change nothing and are enabled only where a plain map with capacity refuses) is the verdict spec. "
+                  "MpqHashTable (hash slots Empty/Deleted/Occupied with chosen home slots, block table, append cursor, listfile content, name-derived "
+                  "encryption keys, probe loops as micro-steps, flush = WriteTables+UpdateHeader, in-session reads) is checked by TLC to refine MpqMap "
+                  "call by call on a 4-slot table with colliding names for all histories up to the bound, with probe termination (incl. full table), "
+                  "table/data disjointness and listfile exactness as invariants and termination as a liveness property. The machine of the code as it is "
+                  "now satisfies the same (with and without listfile); every former behaviour of the code (11 fix commits) is kept as a named deviation "
+                  "action in a configuration that TLC must refute. TLC generates the operation histories from the as-coded machine (bounded-exhaustive "
+                  "short ones incl. a substring-name class, seed-rotated random 4/5-call and long ones incl. more additions than free slots) with the "
+                  "predicted result of every call, session read and post-close map. They are replayed on real MutableArchive objects over V1-V4 starting "
+                  "archives (with/without listfile, attributes, all add options, contents from 1 byte to several sectors); after every close a fresh "
+                  "Archive::open reads EVERY name of the universe and lists the archive; TLC validates the recorded trace against MpqMap (failed call => "
+                  "unchanged, refusal only where legitimate, reads and listing equal the model's disk, in-session reads equal the session view, untouched "
+                  "names keep their tokens, every call returns).",
     "level_note": "Model-checking results are statements about the models; the binding to the code is replay + trace validation on the generated histories "
-                  "(sampled for long histories). V3/V4 archives are blanket-broken in the code (known finding), so V1/V2 carry the discriminating power. "
-                  "Contents are compared as SHA-1 tokens. Single-unit files only (the code under test writes nothing else).",
-    "technique": "TLA+ refinement (MpqHashTable => MpqMap) model-checked with TLC; TLC-generated histories replayed on MutableArchive; TLC trace validation against MpqMap",
+                  "(long histories are sampled; the exhaustive classes are replayed as seed-rotated residue classes). Contents are compared as SHA-1 tokens. "
+                  "list() is a verdict conjunct only for archives that carry a listfile; (attributes) maintenance is observed as a diagnostic only "
+                  "(CRC32 of readable files), being integrity metadata. Crash atomicity of flush / rename is not part of C06.",
+    "technique": "TLA+ refinement (MpqHashTable => MpqMap) model-checked with TLC, former code behaviours refuted by TLC; TLC-generated histories with predictions replayed on MutableArchive; TLC trace validation against MpqMap",
     "design_ref": "DESIGN.md section 5, C06",
     "crates": ["c06"],
 }
@@ -33,6 +39,7 @@ def _classes(ctx):
     t = ctx.thorough
     s = ctx.seed
     cl = []
+    n4 = 4 if t else 1
 
     def add(cls, mode, num=0, **kw):
         env = {"C06_CLASS": cls, "C06_MODE": mode}
@@ -44,6 +51,10 @@ def _classes(ctx):
     add("xb", "bfs", ver=2, lf=0, slack=31, names=3, init=2, minlen=1, maxlen=3 if t else 2)
     # the same with a name whose spelling is contained in another's (listfile maintenance)
     add("sb", "bfs", ver=1 + s % 2, lf=1, slack=31, names=3, init=1, minlen=1, maxlen=4 if t else 3, sub=1)
+    # histories of exactly 4 / 5 calls over the same 3 names (wrapped probe chain): a seed-rotated random sample of the
+    # 194 481 / 4 084 101 histories the exhaustive classes stop short of in quick
+    add("r4", "sim", num=500 * n4, ver=1 + s % 4, lf=1, slack=31, names=3, init=1, minlen=4, maxlen=4, enc=1)
+    add("r5", "sim", num=200 * n4, ver=1 + (s + 2) % 4, lf=(s + 1) % 2, slack=31, names=3, init=2, minlen=5, maxlen=5, enc=1)
     # random long histories on the 16-slot table, 18 names, all add options
     n = 4 if t else 1
     add("lg", "sim", num=12 * n, ver=1 + s % 2, lf=1, slack=31, names=18, init=2, minlen=40, maxlen=40, enc=1)
@@ -84,11 +95,16 @@ def _gen_one(ctx, item):
         if not num and cls in ("xa", "sb") and (i + ctx.seed + (cls == "sb")) % ((6 if cls == "xa" else 12) if ctx.thorough else (3 if cls == "xa" else 6)):
             # ... but every history with a flush immediately followed by compact / reopen+compact stays in
             # (compact() must take its view from the file as flushed, not from an older snapshot)
-            if not re.search(r'"op": ?"(flush|reopen)"\}, \{[^}]*"op": ?"compact"', json.dumps(json.loads(r)["ops"])):
+            seq = [o["op"] for o in json.loads(r)["ops"]]
+            if not any(x in ("flush", "reopen") and y == "compact" for x, y in zip(seq, seq[1:])):
                 continue            # a seed-rotated residue class of the exhaustive enumeration: quick 1/3 of the
                                 # histories of <= 3 calls, thorough 1/6 of those of <= 4 calls (budget)
         c = json.loads(r)
         c["id"] = f"{cls}{i}"
+        # in-session reads are an observation that changes the object (read_file writes pending changes out and
+        # refreshes its view): every other history is replayed without them
+        seq = [o["op"] for o in c["ops"]]
+        c["sread"] = (i + ctx.seed) % 2 == 0 and not any(x in ("flush", "reopen") and y == "compact" for x, y in zip(seq, seq[1:]))
         out.append(c)
     return cls, out
 
@@ -225,6 +241,11 @@ def run(ctx, cases_override=None):
             elif len(samples) < 8 and r["ev"] in ("Add", "Read", "Rename"):
                 samples.append(r)
     pred_drift = sum(1 for d in ctx.drift if "pred" in d["what"])
+    attrs_drift = sum(1 for d in ctx.drift if "attrs" in d["what"])
+    if attrs_drift:
+        ctx.notes.append(f"D-level: at {attrs_drift} of {kinds.get('Attrs', 0)} checkpoints of archives with (attributes) the recorded CRC32 of some readable file "
+                         "differs from the CRC32 of its content (after an addition update_attributes cannot parse the stored attributes with the grown "
+                         "block count and rebuilds them with zeroed CRCs); proposed fix fixes/C06-attributes-keep-crc.patch; integrity metadata is C10's subject")
     cov = {
         "traces_validated_against_impl": res["traces"],
         "samples": samples,
@@ -234,10 +255,11 @@ def run(ctx, cases_override=None):
         "histories_by_length": {str(k): v for k, v in sorted(hist_len.items())},
         "histories_by_predicted_deviation": devs_seen,
         "distinct_nontrivial": sum(v for k, v in hist_len.items() if k >= 2),
-        "rule": "one case = one operation history replayed on a real MutableArchive; non-trivial = at least two calls",
+        "rule": "one case = one operation history (TLC-generated, with a starting-archive class) replayed on a real MutableArchive; non-trivial = at least two calls; histories are distinct within a class by construction (set of TLC CASE lines)",
         "exhaustive": False,
-        "exhaustive_part": "classes xa/xb: TLC enumerates every history up to the length bound over 3 names x {add(rep),add(norep),remove,rename,compact,flush,reopen}; xb is replayed completely, xa as a seed-rotated residue class (quick 1/3 of <= 3 calls, thorough 1/6 of <= 4 calls)",
+        "exhaustive_part": "classes xa/xb: TLC enumerates every history up to the length bound over 3 names x {add(rep),add(norep),remove,rename,compact,flush,reopen}; xb is replayed completely, xa as a seed-rotated residue class (quick 1/3 of <= 3 calls plus every history with flush/reopen directly followed by compact, thorough 1/6 of <= 4 calls); class sb likewise with a substring name pair; r4/r5 are random samples of the 4- and 5-call histories",
         "code_model_prediction_drift": pred_drift,
+        "attributes_crc_drift": attrs_drift,
     }
     ctx.drift = [d for d in ctx.drift if "list" not in d["what"]][:17] + [d for d in ctx.drift if "list" in d["what"]][:3]
     assumptions = ["single process, no concurrent writer; the file system does not fail",
